@@ -78,6 +78,12 @@ func checkC02(p *Prog, res *Result, tier string) {
 	// tombstone guard) is still there (C09-R2)
 	checkCompactionClamp(p, r, res, "C02-R5")
 
+	// ---- R6 (one allocator at a time): the lock that makes a node leader is taken by conditional writes only (C14-R1/R2) ----
+	for _, o := range p.subResult("C14", tier).Obls {
+		if o.Rule == "C14-R1" || o.Rule == "C14-R2" {
+			res.add("C02-R6", o.Rule+" "+o.Construct, o.Status, o.Pos, o.Detail)
+		}
+	}
 	// ---- R6: hand-over (C15-R1) ----
 	checkLeaderStart(p, r, res, "C02-R6")
 	// .. from a timestamp that was really read: a failed oracle read fails the lock operation (C15-R5)
